@@ -5,7 +5,8 @@ From Coq Require Import Permutation.
 From C11 Require Import Model Spec Lists SpecFacts SendProofs Refine Proofs SpecOrder Order.
 
 Definition E0 : list (nat * val) := [].
-Definition fl (f : nat) (comps : list nat) : form := DFlavor f E0 comps E0 AccNone AccNone.
+Definition io0 : iopts := {| io_inits := AccNone; io_reqs := [] |}.
+Definition fl (f : nat) (comps : list nat) : form := DFlavor f E0 comps E0 AccNone AccNone io0.
 
 (* (1) insertMethod, position: base <- mid <- leaf, the daemon of base defined before the daemon of mid *)
 Definition h_chain : list form :=
@@ -65,10 +66,10 @@ Proof. vm_compute. repeat split. Qed.
 (* ---- non-vacuity ------------------------------------------------------------------------------------------------------ *)
 (* a diamond with defaults, keywords, accessors, whoppers and daemons defined after the inheriting flavors *)
 Definition h_example : list form :=
-  [DFlavor 1 [(0, Some 101%Z); (1, None)] [] [(0, Some 201%Z)] AccAll AccNone;
-   DFlavor 2 [(0, Some 102%Z)] [1] [(1, Some 212%Z)] AccNone (AccList [0]);
-   DFlavor 3 [(1, Some 113%Z)] [1] [(0, Some 203%Z)] AccNone AccNone;
-   DFlavor 4 [] [2; 3] [] AccNone AccNone;
+  [DFlavor 1 [(0, Some 101%Z); (1, None)] [] [(0, Some 201%Z)] AccAll AccNone io0;
+   DFlavor 2 [(0, Some 102%Z)] [1] [(1, Some 212%Z)] AccNone (AccList [0]) io0;
+   DFlavor 3 [(1, Some 113%Z)] [1] [(0, Some 203%Z)] AccNone AccNone io0;
+   DFlavor 4 [] [2; 3] [] AccNone AccNone io0;
    DMethod 4 DPrimary (MUser 1) 40 false; DMethod 3 DBefore (MUser 1) 31 false; DMethod 1 DAfter (MUser 1) 12 false;
    DMethod 2 DWhopper (MUser 1) 23 true; DMethod 1 DBefore (MUser 0) 15 false; DMethod 3 DAfter (MUser 0) 36 false;
    DMethod 2 DBefore (MUser 1) 21 false; DMethod 1 DWhopper (MUser 1) 13 true].
@@ -98,3 +99,30 @@ Lemma example_inadmissible :
   run fixed init [DMethod 1 DBefore (MUser 1) 5 false; fl 2 [1]; fl 1 []; fl 1 []] =
     (fst (run fixed init [fl 1 []]), [ErrNoFlavor; ErrNoComponent; Ok; ErrExists]).
 Proof. vm_compute. split; reflexivity. Qed.
+
+(* ---- make-instance --------------------------------------------------------------------------------------------------- *)
+(* a name that is an inittable variable (from base) and an init keyword (from a mixin): the variable is set *)
+Definition h_initvar : list form :=
+  [DFlavor 1 [(0, Some 1%Z)] [] E0 AccNone AccNone {| io_inits := AccAll; io_reqs := [] |};
+   DFlavor 2 E0 [] [(0, None); (2, Some 7%Z)] AccNone AccNone io0;
+   DFlavor 3 E0 [1; 2] E0 AccNone AccNone io0].
+Lemma example_make_instance :
+  wf h_initvar = true /\ g_init (decls h_initvar) 3 [(0, 5%Z); (2, 9%Z)] = true /\
+  make_instance (final h_initvar) 3 [(0, 5%Z); (2, 9%Z)] = Some ([(0, 5%Z)], [(2, 9%Z)]) /\
+  make_instance (final h_initvar) 3 [(4, 1%Z)] = None /\
+  inst_value (s_var (decls h_initvar) 3 0) 0 [(0, 5%Z)] = Some (Some 5%Z).
+Proof. vm_compute. repeat split. Qed.
+(* the code keeps :inittable-instance-variables and :required-init-keywords per flavor: they are not inherited *)
+Definition h_inits : list form :=
+  [DFlavor 1 [(0, Some 1%Z)] [] E0 AccNone AccNone {| io_inits := AccList [0]; io_reqs := [] |};
+   DFlavor 2 [(1, Some 2%Z)] [1] E0 AccNone AccNone {| io_inits := AccList [1]; io_reqs := [] |}].
+Lemma initable_not_inherited :
+  wf h_inits = true /\ make_instance (final h_inits) 2 [(0, 5%Z)] = None /\
+  s_make (decls h_inits) 2 [(0, 5%Z)] = Some ([(0, 5%Z)], []) /\ g_init (decls h_inits) 2 [(0, 5%Z)] = false.
+Proof. vm_compute. repeat split. Qed.
+Definition h_reqs : list form :=
+  [DFlavor 1 E0 [] [(2, None)] AccNone AccNone {| io_inits := AccNone; io_reqs := [2] |}; DFlavor 2 E0 [1] E0 AccNone AccNone io0].
+Lemma required_not_inherited :
+  wf h_reqs = true /\ make_instance (final h_reqs) 2 [] = Some ([], []) /\ make_instance (final h_reqs) 1 [] = None /\
+  s_make (decls h_reqs) 2 [] = None /\ g_init (decls h_reqs) 2 [] = false.
+Proof. vm_compute. repeat split. Qed.
